@@ -55,6 +55,14 @@ def disk_specs(tier):
         spec = dict(t2)
         spec.update(grammar=gr, prince=D.PRINCE)
         out.append(spec)
+    # values that begin with U+FEFF as the first line of their file (a training list saved with a byte-order mark leaves such a symbol behind)
+    t3 = dict(t0)
+    t3.update(O={1: [('\ufeff', .6), ('!', .4)], 2: [('\ufeff!', .5), ('!\ufeff', .5)]}, A={2: [('\ufeffa', .7), ('ab', .3)], 1: [('a', 1.0)]},
+              C={2: [('LL', .6), ('LU', .4)], 1: [('L', 1.0)]})
+    for gr in ([('O1A2D1', .6), ('A2O2', .4)],):
+        spec = dict(t3)
+        spec.update(grammar=gr, prince=D.PRINCE)
+        out.append(spec)
     step = 29 if tier == 'quick' else 5
     out += list(D.specs(tier))[::step]
     return out
